@@ -47,7 +47,9 @@ fn box_setup(rng: &mut Rng, min_waist: f64, max_waist: f64) -> Result<(SPDC, Val
   let wp = waist(rng);
   let ws = waist(rng);
   let wi = waist(rng);
-  let theta_c = if poled { *rng.pick(&[90., 90., 60., 35., 25.]) } else { 45. };
+  // negative crystal angles give a NEGATIVE pump walk-off angle (tan rho < 0)
+  let theta_c = if poled { *rng.pick(&[90., 90., 60., 35., 25., -35., -60., -25.]) } else { 45. };
+  let flip_theta = !poled && rng.below(3) == 0;
   let phi_c = if rng.coin() { 0. } else { rng.range(0., 90.) };
   let mut cs = CrystalSetup {
     crystal: crystal.clone(),
@@ -67,6 +69,9 @@ fn box_setup(rng: &mut Rng, min_waist: f64, max_waist: f64) -> Result<(SPDC, Val
       PeriodicPoling::try_new_optimum(&signal, &pump, &cs, Apodization::Off).map_err(|e| format!("poling: {}", e))?
     } else {
       cs.assign_optimum_theta(&signal, &pump);
+      if flip_theta {
+        cs.theta = -cs.theta;
+      }
       PeriodicPoling::Off
     };
     let mut idler = IdlerBeam::try_new_optimum(&signal, &pump, &cs, &pp).map_err(|e| format!("idler: {}", e))?;
@@ -100,7 +105,7 @@ pub fn run(args: &[String]) {
   let integ = Integrator::default();
   emit(json!({"kind": "default_integrator", "debug": format!("{:?}", integ)}));
   // ---- rule extraction
-  for divs in [50usize, 20, 7, 6, 49] {
+  for divs in [50usize, 20, 7, 6, 49, 130, 131, 200] {
     for _ in 0..2 {
       let psi = rng.range(-3., 3.);
       let ff = rng.range(-12., 12.);
@@ -222,13 +227,16 @@ pub fn run(args: &[String]) {
         let t0 = solve(0.)?;
         let mut samples = vec![];
         let (a0, b0) = at(t0);
+        let big = Integrator::Simpson { divs: 130 };
         let f_pm = *(phasematch_fiber_coupling(a0, b0, &spdc, integ) / PerMeter4::new(1.));
-        samples.push((t0, g(t0), f_pm));
+        let f_pm_big = *(phasematch_fiber_coupling(a0, b0, &spdc, big) / PerMeter4::new(1.));
+        samples.push((t0, g(t0), f_pm, f_pm_big));
         for target in targets.iter() {
           if let Some(t) = solve(*target) {
             let (a, b) = at(t);
             let v = *(phasematch_fiber_coupling(a, b, &spdc, integ) / PerMeter4::new(1.));
-            samples.push((t, g(t), v));
+            let vb = *(phasematch_fiber_coupling(a, b, &spdc, big) / PerMeter4::new(1.));
+            samples.push((t, g(t), v, vb));
           }
         }
         Some(samples)
@@ -239,7 +247,7 @@ pub fn run(args: &[String]) {
           let zs = [0.0];
           let (a0, b0) = at(samples[0].0);
           let p = dump_params(&spdc, a0, b0, &zs);
-          let ss: Vec<Value> = samples.iter().map(|(t, ff, v)| json!({"t": fx(*t), "ff": fx(*ff), "v": cx(*v)})).collect();
+          let ss: Vec<Value> = samples.iter().map(|(t, ff, v, vb)| json!({"t": fx(*t), "ff": fx(*ff), "v": cx(*v), "v130": cx(*vb)})).collect();
           emit(json!({"kind": "pw", "setup": desc, "dir_rad": ang, "p": p, "samples": ss,
             "theta_c_deg": *(spdc.crystal_setup.theta / DEG)}));
         }
